@@ -28,7 +28,7 @@ SOFT_LIMIT = {"quick": 240, "thorough": 1500}
 REQUIRED_FUNCS = ["sempler/noise.py:normal", "sempler/noise.py:uniform", "sempler/noise.py:laplace", "sempler/noise.py:zero",
                   "sempler/functions.py:null"]
 REQUIRED_COUNTERS = {t: {"dkw:normal": 30, "dkw:uniform": 10, "dkw:laplace": 20, "zero:checked": 2, "null:checked": 2, "repro:seeded-equal": 50,
-                         "repro:unseeded-differ": 50, "same-parameters:uniform": 5, "anm-history:samples": 10} for t in ("quick", "thorough")}
+                         "repro:unseeded-differ": 50, "same-parameters:uniform": 5, "anm-history:samples": 10, "pooled:variance-judged": 20, "pooled:replicates": 8000} for t in ("quick", "thorough")}
 NBIG = {"quick": 100000, "thorough": 1000000}
 SEEDS = {"quick": (0, 1, 12345), "thorough": (0, 1, 2, 3, 5, 7, 42, 99, 12345, 65537, 2**31, 2**32 - 1)}
 
@@ -78,6 +78,11 @@ def gen(tier, seed, shard, nshards):
     if shard == 1 % nshards:
         for s in range(6):
             yield "anm-history", {"np_seed": s + int(seed) % 1000}
+    # pooled moments: many independent (parameters, sample) replicates judged together - systematic errors of a fraction of a percent
+    for i in range(24 if tier == "quick" else 96):
+        if i % nshards == shard:
+            yield "pooled", {"kind": ("normal", "uniform", "laplace")[i % 3], "i": i, "K": 400 if tier == "quick" else 1600,
+                             "n": 20000 if tier == "quick" else 50000, "base": int(seed)}
     k = 0
     for (kind, params) in GRID:
         for s in SEEDS[tier]:
@@ -98,9 +103,56 @@ def _law(kind, params):
     return (lambda x: S.laplace_cdf(x, mean, scale)), mean, 2 * scale * scale, 3.0, (-math.inf, math.inf)
 
 
+def _pooled(noise, kind, seed_parts, K, n):
+    tot = {"mean": 0.0, "variance": 0.0, "third-moment": 0.0}
+    for r in range(K):
+        rng = util.rng_for(*seed_parts, r)
+        a = float(np.round(rng.uniform(-5, 5), 3))
+        b = float(np.round(10 ** rng.uniform(-1, 1), 3))
+        params = (a, a + b) if kind == "uniform" else (a, b)
+        _, mu, var, kurt, _ = _law(kind, params)
+        np.random.seed(int(rng.integers(0, 2**32)))
+        d = (np.asarray(getattr(noise, kind)(*params)(n), dtype=float) - mu) / math.sqrt(var)
+        tot["mean"] += float(d.mean()) * math.sqrt(n)
+        tot["variance"] += float(np.mean(d * d) - 1.0) / math.sqrt((2.0 + kurt) / n)
+        # E z^3 = 0 for the three (symmetric) laws; Var z^3 = E z^6 = 15 (normal), 27/7 (uniform), 90 (laplace)
+        tot["third-moment"] += float(np.mean(d ** 3)) / math.sqrt({"normal": 15.0, "uniform": 27.0 / 7.0, "laplace": 90.0}[kind] / n)
+    return {k_: v / math.sqrt(K) for k_, v in tot.items()}
+
+
+def _judge_pooled(noise, case, rec, family):
+    kind, K, n = case["kind"], case["K"], case["n"]
+    rec.case(family, case, True, key=("pooled", kind, case["i"], case["base"]))
+    state = np.random.get_state()
+    try:
+        Z = _pooled(noise, kind, ("C20pool", case["base"], kind, case["i"]), K, n)
+        for stat, z in Z.items():
+            rec.count("pooled:%s-judged" % stat)
+            rec.max("max|Z|-pooled-" + stat, abs(z))
+            if abs(z) > S.Z_SUSPECT:
+                rec.count("escalations")
+                zs = []
+                for rep in range(3):
+                    zs.append(_pooled(noise, kind, ("C20pool-esc", case["base"], kind, case["i"], rep), 3 * K, n)[stat])
+                    if not (abs(zs[-1]) > S.Z_CONFIRM and zs[-1] * z > 0):
+                        break
+                else:
+                    rec.violation("C20:%s-pooled-%s-off" % (kind, stat), family, case,
+                                  "standardised %s errors of %d independent noise.%s samples of %d draws, pooled: Z = %.1f, confirmed on three fresh sets "
+                                  "of %d samples: %s" % (stat, K, kind, n, z, 3 * K, ["%.1f" % v for v in zs]))
+        rec.count("pooled:replicates", K)
+    except Exception as e:
+        rec.exception_violation("C20:pooled-exception", family, case, "noise factory raised in the pooled family", e)
+    finally:
+        np.random.set_state(state)
+
+
 def judge(family, case, rec):
     import sempler.noise as noise
     import sempler.functions as functions
+    if family == "pooled":
+        _judge_pooled(noise, case, rec, family)
+        return
     if family == "narrow-scalars":
         # parameters given as narrow numpy scalars mean the same numbers as python floats
         kind = case["kind"]
